@@ -24,7 +24,7 @@ impl ScriptDirector {
 
     fn io_kind(step: &Step) -> Option<char> {
         match step {
-            Step::W { .. } | Step::Wpend {} | Step::Werr {} => Some('w'),
+            Step::W { .. } | Step::Wpend {} | Step::Werr {} | Step::Wzero {} => Some('w'),
             Step::R { .. } | Step::Rpend {} | Step::Reof {} | Step::Rerr {} => Some('r'),
             Step::F { .. } => Some('f'),
             _ => None,
@@ -71,6 +71,7 @@ impl ScriptDirector {
             },
             Step::Wpend {} | Step::Rpend {} => IoDec::Pending,
             Step::Werr {} | Step::Rerr {} => IoDec::Err,
+            Step::Wzero {} => IoDec::Zero,
             Step::Reof {} => IoDec::Eof,
             _ => unreachable!(),
         })
